@@ -7,6 +7,7 @@ CONSTANTS
   QSize = 2
   MaxNow = 6
   KF_C10_LostHandoff = TRUE
+  KF_Overtake = FALSE
   TtlPeek = FALSE
   Driver = TRUE
   KeepHist = TRUE
